@@ -6,7 +6,7 @@ names are inherited from whoever nests them.
 from dataclasses import dataclass, field
 
 from sim.pool.base import StableHashMeta
-from typing import Optional
+from typing import Optional, Union
 
 
 @dataclass
@@ -108,3 +108,71 @@ class TreeB(metaclass=StableHashMeta):
         namespace = "urn:b"
 
     node: Optional[Node] = field(default=None, metadata={"type": "Element"})
+
+
+@dataclass
+class BaseNs(metaclass=StableHashMeta):
+    """Declares a namespace; subclasses without their own Meta do NOT inherit it (Meta is not inheritable)."""
+
+    class Meta:
+        namespace = "urn:base"
+
+    base_field: str = field(default="", metadata={"type": "Element"})
+
+
+@dataclass
+class SubNs(BaseNs):
+    """No Meta of its own: its qualified names come from whoever nests it."""
+
+    label: str = field(default="", metadata={"type": "Element"})
+    code: Optional[int] = field(default=None, metadata={"type": "Attribute"})
+
+
+@dataclass
+class HolderA(metaclass=StableHashMeta):
+    class Meta:
+        name = "holderA"
+        namespace = "urn:a"
+
+    sub: Optional[SubNs] = field(default=None, metadata={"type": "Element"})
+    subs: list[SubNs] = field(default_factory=list, metadata={"type": "Element", "name": "s"})
+
+
+@dataclass
+class HolderB(metaclass=StableHashMeta):
+    class Meta:
+        name = "holderB"
+        namespace = "urn:b"
+
+    sub: Optional[SubNs] = field(default=None, metadata={"type": "Element"})
+    subs: list[SubNs] = field(default_factory=list, metadata={"type": "Element", "name": "s"})
+
+
+@dataclass
+class U1(metaclass=StableHashMeta):
+    """Union candidates without a namespace: the union replay must hand the parent namespace down."""
+
+    a: Optional[int] = field(default=None, metadata={"type": "Element"})
+
+
+@dataclass
+class U2(metaclass=StableHashMeta):
+    b: Optional[str] = field(default=None, metadata={"type": "Element"})
+
+
+@dataclass
+class PickA(metaclass=StableHashMeta):
+    class Meta:
+        name = "pickA"
+        namespace = "urn:a"
+
+    pick: Optional[Union[U1, U2]] = field(default=None, metadata={"type": "Element"})
+
+
+@dataclass
+class PickB(metaclass=StableHashMeta):
+    class Meta:
+        name = "pickB"
+        namespace = "urn:b"
+
+    pick: Optional[Union[U1, U2]] = field(default=None, metadata={"type": "Element"})
